@@ -82,15 +82,21 @@ def gen_shutdown_race(rng):
     if rng.random() < 0.7:
         ops.append(["result", rng.randrange(nsub)])
     ops.append(["shutdown", True])
-    return {"sim": runner.draw_sim_cfg(rng, est=300), "base": {"kind": rng.choice(["sync", "pool"]), "n": 1}, "layers": layers,
+    sim_cfg = runner.draw_sim_cfg(rng, est=300)
+    if rng.random() < 0.5:
+        # the window is a few lines of a worker loop, with no user code nearby: dense site-directed schedules
+        for k in ("d", "p", "q", "max_hold", "est", "calibrate", "kmax"):
+            sim_cfg.pop(k, None)
+        sim_cfg.update({"strategy": "site", "site_mod": 15, "line_q": 1.0, "line": True})
+    return {"sim": sim_cfg, "base": {"kind": rng.choice(["sync", "pool"]), "n": 1}, "layers": layers,
             "subs": subs, "clients": [ops], "settle": 15.0, "focus": "shutdown-race"}
 
 
 def gen(rng, tier):
     r0 = rng.random()
-    if r0 < 0.1:
+    if r0 < 0.15:
         return gen_shutdown_race(rng)
-    if r0 < 0.35:
+    if r0 < 0.38:
         return gen_timeout_cancel(rng)
     depth = rng.choice([0, 1, 1, 2, 2, 3])
     base = {"kind": rng.choice(["sync", "pool", "pool"]), "n": rng.choice([1, 2])}
